@@ -148,7 +148,13 @@ def shard(lst, n):
     return [lst[i::n] for i in range(n)]
 
 
-def exec_flw(scen_file, trace_file, timeout=600, sub="flw", extra=(), env=None):
+def _thorough():
+    return os.environ.get("VERIF_TIER", "quick") != "quick"
+
+
+def exec_flw(scen_file, trace_file, timeout=None, sub="flw", extra=(), env=None):
+    if timeout is None:
+        timeout = 5400 if _thorough() else 900
     e = dict(os.environ)
     e.setdefault("TZ", "UTC")
     if env:
@@ -192,7 +198,9 @@ def judge(mon, trace_file, metadir, timeout=None, env=None):
 def run_sharded(pid, mon, scens, wd, sub="flw", nshards=None, mon_env=None, exec_extra=(), shard_env=None):
     """Write scenarios into shards, execute them on the real code, judge every shard trace with TLC.
     Returns dict(bads=[(sc,n,pred)], counts=[...], events, traces=[files])."""
-    nshards = nshards or min(12, NCPU - 2 if NCPU > 4 else NCPU)
+    par = min(12, NCPU - 2 if NCPU > 4 else NCPU)
+    # thorough: three times as many (smaller) shards, executed and judged in waves of `par`
+    nshards = nshards or (par * 3 if _thorough() else par)
     if scens and "grp" in scens[0]:
         # scenarios of one group are compared with each other: keep them together and in order
         groups = {}
@@ -218,7 +226,7 @@ def run_sharded(pid, mon, scens, wd, sub="flw", nshards=None, mon_env=None, exec
         return nsc, nev, bads, counts
 
     t = time.time()
-    with ThreadPoolExecutor(max_workers=len(files)) as ex:
+    with ThreadPoolExecutor(max_workers=min(len(files), par)) as ex:
         results = list(ex.map(one, files))
     bads, counts, events, nsc = [], [], 0, 0
     for r in results:
@@ -509,6 +517,6 @@ def conform(traces, wd, max_rounds=6, module="TraceFlwMC.tla", cfg="TraceFlw.cfg
             open(cur, "w").writelines(lines)
         return nsc, nev, drifts
 
-    with concurrent.futures.ThreadPoolExecutor(max_workers=max(1, len(traces))) as ex:
+    with concurrent.futures.ThreadPoolExecutor(max_workers=max(1, min(12, len(traces)))) as ex:
         rs = list(ex.map(one, enumerate(traces)))
     return {"scenarios": sum(r[0] for r in rs), "events": sum(r[1] for r in rs), "drifts": [d for r in rs for d in r[2]]}
